@@ -1,8 +1,8 @@
 #!/bin/bash
-# confirm_seed.sh <Cxx> <n>   — independently confirms seeded change /tmp/mut/out/<Cxx>-<n> in the scratch worktree /tmp/mut/<Cxx>:
+# confirm_seed.sh <Cxx> <n>   — independently confirms seeded change ${SEEDBASE:-/tmp/mut}/out/<Cxx>-<n> in the scratch worktree /tmp/mut/<Cxx>:
 #   patch applies to /repo HEAD, patched tree compiles, pinned suite unchanged (133 pass + 2 NOT_BUILT), demo PASS before / FAIL after.
 # On success copies patch.diff, demo.cpp, notes.txt to /verif/seeded/<Cxx>-<n>/ and writes meta.json.
-P=$1; N=$2; ID=$P-$N; SRC=/tmp/mut/out/$ID; W=/tmp/mut/$P; L=/tmp/mut/confirm-$ID
+P=$1; N=$2; ID=$P-$N; SRC=${SEEDBASE:-/tmp/mut}/out/$ID; W=${SEEDBASE:-/tmp/mut}/$P; L=${SEEDBASE:-/tmp/mut}/confirm-$ID
 [ -f $SRC/patch.diff ] || { echo "$ID: no patch"; exit 2; }
 git -C $W checkout -q -- . ; git -C $W status --short | grep -v _build | grep -q . && { echo "$ID: worktree dirty"; exit 2; }
 git -C /repo apply --check $SRC/patch.diff 2>/dev/null; APPLIES_HEAD=$?
@@ -19,7 +19,7 @@ PASSLINE=$(grep "tests passed" $L/tests.txt)
 NB=$(grep -c "NOT_BUILT" $L/tests.txt)
 FAILED=$(grep -E "^\s+[0-9]+ - " $L/tests.txt | grep -v NOT_BUILT | wc -l)
 git -C $W checkout -q -- .
-OK=1; [ $RB -eq 0 ] || OK=0; [ $RM -ne 0 ] || OK=0; [ $FAILED -eq 0 ] || OK=0; echo "$PASSLINE" | grep -q "2 tests failed out of 135" || OK=0
+OK=1; [ $RB -eq 0 ] || OK=0; [ $RM -ne 0 ] || OK=0; [ $FAILED -eq 0 ] || OK=0; echo "$PASSLINE" | grep -q "${SEEDBASELINE:-2 tests failed out of 135}" || OK=0
 echo "$ID: demo base rc=$RB patched rc=$RM; suite: $PASSLINE (other failures: $FAILED); applies to /repo HEAD: $([ $APPLIES_HEAD -eq 0 ] && echo yes || echo no) => $([ $OK -eq 1 ] && echo CONFIRMED || echo REJECTED)"
 if [ $OK -eq 1 ]; then
   D=/verif/seeded/$ID; mkdir -p $D; cp $SRC/patch.diff $SRC/demo.cpp $D/; [ -f $SRC/notes.txt ] && cp $SRC/notes.txt $D/
@@ -31,7 +31,7 @@ meta = {
  'id': ident, 'property': p,
  'needs_to_manifest': 'see notes.txt (written by the independent sub-agent that produced the change)',
  'confirmed': {
-   'by': 'tools/confirm_seed.sh in scratch worktree /tmp/mut/%s' % p,
+   'by': 'tools/confirm_seed.sh in a scratch worktree of /repo (%s)' % p,
    'compiles': True,
    'suite': passline.strip(),
    'demo_on_unmodified': 'exit 0: ' + open(l + '/out_base.txt', errors='replace').read()[-300:].strip(),
